@@ -347,6 +347,8 @@ class DescDomain(BaseDomain):
         def any_(a, *x, **k):
             if isinstance(a, ArrDesc) and a.kind == "bool" and a.val in ("true", "false") and not x and not k:
                 return a.val == "true" and a.size > 0
+            if isinstance(a, ArrDesc) and a.val in ("zero", "nonzero", "pos") and not x and not k:
+                return a.val != "zero" and a.size > 0
             if isinstance(a, bool):
                 return a
             return Unk("np.any")
@@ -354,13 +356,98 @@ class DescDomain(BaseDomain):
         def all_(a, *x, **k):
             if isinstance(a, ArrDesc) and a.kind == "bool" and a.val in ("true", "false") and not x and not k:
                 return a.val == "true" or a.size == 0
+            if isinstance(a, ArrDesc) and a.val in ("zero", "nonzero", "pos") and not x and not k:
+                return a.val != "zero" or a.size == 0
             if isinstance(a, bool):
                 return a
             return Unk("np.all")
         t["any"], t["all"] = any_, all_
 
         def allclose(a, b, *x, **k):
+            for arr, other in ((a, b), (b, a)):
+                if isinstance(arr, ArrDesc) and isinstance(other, (int, float)) and not isinstance(other, bool):
+                    if arr.val == "zero":
+                        return other == 0 or Unk("np.allclose")
+                    if arr.val in ("nonzero", "pos") and other == 0 and arr.size > 0:
+                        return False        # generic non-zero entries: away from zero by a margin
+                    return Unk("np.allclose")
+            if all(isinstance(v, (int, float)) and not isinstance(v, bool) for v in (a, b)):
+                return bool(_np.allclose(a, b, *[v for v in x if isinstance(v, (int, float))],
+                                         **{kk: vv for kk, vv in k.items() if isinstance(vv, (int, float))}))
             return self.same_array(a, b)
+
+        def isclose(a, b, *x, **k):
+            if all(isinstance(v, (int, float)) and not isinstance(v, bool) for v in (a, b)):
+                return bool(_np.isclose(a, b, *[v for v in x if isinstance(v, (int, float))],
+                                        **{kk: vv for kk, vv in k.items() if isinstance(vv, (int, float))}))
+            r = allclose(a, b)
+            if isinstance(r, bool) and isinstance(a if isinstance(a, ArrDesc) else b, ArrDesc):
+                arr = a if isinstance(a, ArrDesc) else b
+                return A("bool", arr.shape, val="true" if r else "false")
+            return Unk("np.isclose")
+        t["isclose"] = isclose
+
+        def count_nonzero(a, *x, **k):
+            if isinstance(a, ArrDesc) and not x and not k:
+                if a.val in ("zero", "false"):
+                    return 0
+                if a.val in ("nonzero", "pos", "true"):
+                    return a.size
+            return Unk("np.count_nonzero")
+        t["count_nonzero"] = count_nonzero
+
+        def reduce_(name):
+            def f(a, *x, **k):
+                if isinstance(a, ArrDesc) and not x and not k and a.size > 0:
+                    if a.val == "zero":
+                        return 0.0
+                    if a.val == "pos":
+                        return Pos(f"{name} of strictly positive entries")
+                return Unk(f"np.{name}")
+            return f
+        for n in ("sum", "max", "min", "mean", "amax", "amin", "nansum"):
+            t[n] = reduce_(n)
+
+        def iscomplexobj(a):
+            if isinstance(a, ArrDesc):
+                return a.kind == "complex"
+            if isinstance(a, (int, float, bool)):
+                return False
+            if isinstance(a, complex):
+                return True
+            return Unk("np.iscomplexobj")
+        t["iscomplexobj"] = iscomplexobj
+
+        def isrealobj(a):
+            r = iscomplexobj(a)
+            return (not r) if isinstance(r, bool) else Unk("np.isrealobj")
+        t["isrealobj"] = isrealobj
+
+        def isreal(a):
+            if isinstance(a, ArrDesc):
+                if a.kind in ("real", "bool") or a.val == "zero":
+                    return A("bool", a.shape, val="true")
+                if a.kind == "complex" and a.val in ("nonzero", "pos"):
+                    return A("bool", a.shape, val="false")      # generic complex entries: non-zero imaginary parts
+            return Unk("np.isreal")
+        t["isreal"] = isreal
+
+        def issubdtype(d, tp):
+            kd = self._dtype_kind(d)
+            name = tp.name if isinstance(tp, TypeModel) else None
+            if kd in KIND_RANK and name:
+                if name in ("floating", "float64", "float", "double"):
+                    return kd == "real"
+                if name in ("complexfloating", "complex128", "complex"):
+                    return kd == "complex"
+                if name == "quaternion":
+                    return kd == "quat"
+                if name in ("number", "generic"):
+                    return kd != "quat" if name == "number" else True
+                if name in ("integer", "int64", "int32", "bool_"):
+                    return kd == "bool" if name == "bool_" else False
+            return Unk("np.issubdtype")
+        t["issubdtype"] = issubdtype
         t["allclose"] = t["array_equal"] = t["array_equiv"] = allclose
 
         def isscalar(x):
@@ -374,17 +461,23 @@ class DescDomain(BaseDomain):
         t["ndim"] = lambda a: a.ndim if isinstance(a, ArrDesc) else Unk("np.ndim")
         t["size"] = lambda a, *x: a.size if isinstance(a, ArrDesc) and not x else Unk("np.size")
 
-        def elementwise(kind=None):
+        def elementwise(kind=None, valmap=None):
             def f(a, *x, **k):
                 if "out" in k and isinstance(k["out"], ArrDesc) and k["out"].owner:
                     self._interp.note_effect(f"out= store into argument {k['out'].owner}")
                 if isinstance(a, ArrDesc):
-                    return a.fresh(kind=kind or a.kind)
+                    return a.fresh(kind=kind or a.kind, val=valmap.get(a.val) if valmap else None)
+                if isinstance(a, Pos) and valmap and valmap.get("pos") == "pos":
+                    return Pos("positive")
                 return Unk("np.elementwise")
             return f
-        for n in ("sqrt", "exp", "log", "square", "negative", "sign", "floor", "ceil", "round", "clip", "nan_to_num"):
+        for n in ("exp", "log", "floor", "ceil", "round", "clip", "nan_to_num"):
             t[n] = elementwise()
-        t["abs"] = t["absolute"] = elementwise("real")
+        t["sqrt"] = elementwise(valmap={"zero": "zero", "pos": "pos"})
+        t["square"] = elementwise(valmap={"zero": "zero", "pos": "pos", "nonzero": "pos"})
+        t["negative"] = elementwise(valmap={"zero": "zero", "nonzero": "nonzero", "pos": "nonzero"})
+        t["sign"] = elementwise(valmap={"zero": "zero", "nonzero": "nonzero", "pos": "pos"})
+        t["abs"] = t["absolute"] = t["fabs"] = elementwise("real", valmap={"zero": "zero", "nonzero": "pos", "pos": "pos"})
 
         def fill_diagonal(a, v, **k):
             if isinstance(a, ArrDesc) and a.owner:
@@ -424,8 +517,10 @@ class DescDomain(BaseDomain):
                                          "resolution": 1e-15})
         t["finfo"] = lambda *a, **k: finfo
         def norm(a, *x, **k):
-            if isinstance(a, ArrDesc) and a.val == "nonzero" and a.size > 0 and not x and not k:
+            if isinstance(a, ArrDesc) and a.val in ("nonzero", "pos") and a.size > 0 and not x:
                 return Pos("norm of a generic non-zero array")
+            if isinstance(a, ArrDesc) and a.val == "zero" and not x:
+                return 0.0
             return Unk("np.linalg.norm")
         t["linalg"] = TableModule("numpy.linalg", {"norm": norm})
         for sub in ("random", "fft", "testing", "ma", "lib"):
@@ -647,8 +742,11 @@ class DescDomain(BaseDomain):
                 if arr.val == "zero":
                     r = op(other, 0) if flip else op(0, other)
                     val = "true" if r else "false"
-                elif arr.val == "nonzero" and other == 0 and op in (operator.eq, operator.ne):
+                elif arr.val in ("nonzero", "pos") and other == 0 and op in (operator.eq, operator.ne):
                     val = "true" if op is operator.ne else "false"
+                elif arr.val == "pos" and other <= 0:
+                    r = op(0, 1) if flip else op(1, 0)      # a strictly positive entry against a non-positive bound
+                    val = "true" if r else "false"
             return ArrDesc("bool", arr.shape, val=val)
         if isinstance(a, (tuple, list)) and isinstance(b, (tuple, list)) and op in (operator.eq, operator.ne):
             if any(isinstance(x, Unk) for x in a) or any(isinstance(x, Unk) for x in b):
@@ -732,6 +830,11 @@ class DescDomain(BaseDomain):
                     raise ModelError(f"reshape: {ex}")
                 return a.view(sh)
             return reshape
+        if attr in ("any", "all", "sum", "max", "min", "mean"):
+            fn = self.np.table[attr]
+            return lambda *x, **k: fn(a, *x, **k)
+        if attr == "nonzero":
+            return lambda: Unk("ndarray.nonzero")
         if attr in ("ravel", "flatten"):
             return lambda *x, **k: (a.view((a.size,)) if attr == "ravel" else a.fresh(shape=(a.size,)))
         if attr in ("fill", "sort", "partition", "resize", "itemset", "setfield", "put"):
